@@ -32,29 +32,67 @@ ASSUME = [
 
 
 class Prop:
-    def __init__(self):
-        self.wf = {}
+    def monitor(self, line, out):
+        """trace monitor on one implementation answer: a well-formed write sequence must read back as written.
+        Returns None or (why, signature)."""
+        if not line.startswith("arc ") or " | " not in out:
+            return None
+        written = archgen.parse_items(line.split(" ")[4:])
+        if not archgen.well_formed(written):
+            return None
+        rb = out.split(" | ", 1)[1]
+        if not rb.startswith("ok ") and not (rb == "ok" and not written):
+            return "read-back of an intact archive failed: " + rb[:200], "roundtrip:failed-read"
+        got = archgen.parse_items([x for x in rb.split(" ")[1:] if x], selfs=False)
+        want = archgen.strip_selfs(written)
+        if got != want:
+            what = first_value_diff(want, got)
+            return "read-back differs from what was written (%s)" % what, "roundtrip:" + what
+        return None
 
     def classify(self, lines, impl, crash, model):
         if crash:
             return "violation", "implementation crashed / sanitizer report: " + crash, crash
+        for k, l in enumerate(lines):
+            if k < len(impl):
+                m = self.monitor(l, impl[k])
+                if m:
+                    return "violation", "line %d `%s…`: %s" % (k, l[:120], m[0]), m[1]
         i = common.first_diff(impl, model)
         a = impl[i] if i is not None and i < len(impl) else "<missing>"
         b = model[i] if i is not None and i < len(model) else "<missing>"
         line = lines[i] if i is not None and i < len(lines) else "?"
         why = "line %s `%s…`: implementation `%s…`, proved model `%s…`" % (i, line[:120], a[:160], b[:160])
-        # trace monitor: on a well-formed write sequence the implementation must read back what was written
-        if line.startswith("arc ") and " | " in a:
-            written = archgen.parse_items(line.split(" ")[4:])
-            if archgen.well_formed(written):
-                rb = a.split(" | ", 1)[1]
-                if not rb.startswith("ok ") and not (rb == "ok" and not written):
-                    return "violation", "read-back of an intact archive failed: " + rb[:200], "roundtrip:failed-read"
-                got = archgen.parse_items(rb.split(" ")[1:])
-                if got != written:
-                    return "violation", "read-back differs from what was written; " + why, "roundtrip:different-values"
-            return "diff", why, "diff:bytes"
-        return "diff", why, "diff:other"
+        return "diff", why, "diff:bytes" if line.startswith("arc ") else "diff:other"
+
+
+def first_value_diff(want, got):
+    """which kind of item came back different (the signature of a round-trip failure)"""
+    def walk(a, b):
+        if isinstance(a, list):
+            if not isinstance(b, list) or len(a) != len(b):
+                return "different-length"
+            for x, y in zip(a, b):
+                r = walk(x, y)
+                if r:
+                    return r
+            return None
+        if a == b:
+            return None
+        if a[0] != b[0]:
+            return "different-kind:%s->%s" % (a[0], b[0])
+        if a[0] == "v":
+            return walk(a[2], b[2]) or "value"
+        if a[0] == "ca":
+            if a[1:3] != b[1:3]:
+                return "const-array-header"
+            return walk([e for _, e in a[3]], [e for _, e in b[3]]) or "const-array"
+        if a[0] == "obj":
+            return walk(a[3], b[3]) or "object"
+        if a[0] == "s" and a[1] == b"" :
+            return "empty-string-value:%s" % b[1].hex()
+        return "value:" + a[0]
+    return walk(want, got) or "unknown"
 
 
 def corpus_cases(reg):
@@ -83,8 +121,12 @@ def fixed_cases(reg):
 
 def check(ctx):
     prop = Prop()
-    archgen.translate(ctx)
+    d0 = archgen.translate(ctx)
     proofs_ok, _ = common.proof_side(ctx, PROPS_MODULE, PROPS_FILE)
+    if ctx.stats.get("lake_build_ok"):
+        archgen.cfg_obligations(ctx, d0["flags"], {
+            "valueStrFresh": "a loaded String value starts from an empty string (C10_value_roundtrip for empty strings)"},
+            "notes/C10-findings.md")
     if ctx.tier == "thorough":
         common.leanchecker(ctx, PROPS_MODULE)
     exe = archgen.build(ctx)
@@ -136,8 +178,19 @@ def check(ctx):
                          "cd lean && lake build && lake env lean <Audit.lean with #print axioms>; tools/check.py C10")
 
 
+def count_vkinds(v, hist):
+    k = "v:" + v[0] + (":empty" if v[0] == "s" and not v[1] else "")
+    hist[k] = hist.get(k, 0) + 1
+    if v[0] == "ca":
+        for _, e in v[3]:
+            count_vkinds(e, hist)
+
+
 def count_kinds(items, hist):
     for it in items:
+        if it[0] == "v":
+            count_vkinds(it[2], hist)
+            continue
         k = it[0] + (":" + it[1] if it[0] == "p" else "")
         if it[0] in ("op", "sp") and it[1] == 0:
             k += ":null"
